@@ -15,6 +15,7 @@ from harness import core
 
 MC_CFG = """CONSTANT MaxSize = %d
 CONSTANT MaxLen = %d
+CONSTANT ParseSize = %d
 INIT Init
 NEXT Next
 CHECK_DEADLOCK FALSE
@@ -43,24 +44,29 @@ INVARIANT Conforms
 INVARIANT NotVacuous
 """
 
-# Deterministic stand-in for a time-out: regex.compile on a well-behaved
-# expression of the sizes used here needs < 40 000 Python-level calls; an
-# expression whose derivative set keeps growing never returns.
-CALL_BUDGET = 200000
+# Deterministic stand-in for a time-out: a budget of Python-level function calls.  Measured on
+# 1 500 random expressions per size (tree with the proposed fixes, where every compile terminates):
+# size<=6 needs < 23 000 calls, size 7 < 90 000, size 8 < 185 000; an expression whose derivative
+# set keeps growing never returns.
+def call_budget(size):
+    return 200000 if size <= 6 else 1000000 if size == 7 else 2000000
+
+
+MAX_BUDGET = 4000000
 
 
 class Budget(Exception):
     pass
 
 
-def limited(fn, *args):
+def limited(fn, *args, budget=MAX_BUDGET):
     """fn(*args) under a budget of Python function calls (not wall clock)."""
     cnt = [0]
 
     def prof(frame, event, arg):
         if event == "call":
             cnt[0] += 1
-            if cnt[0] > CALL_BUDGET:
+            if cnt[0] > budget:
                 sys.setprofile(None)
                 raise Budget()
 
@@ -124,6 +130,10 @@ def show(t, ctx=0):
     else:
         s, p = show(t[1], 0) + "|" + show(t[2], 1), 0
     return "(" + s + ")" if p < ctx else s
+
+
+def nodes(t):
+    return 1 + sum(nodes(c) for c in t[1:] if isinstance(c, tuple) and t[0] != "leaf")
 
 
 def to_json(t):
@@ -208,12 +218,12 @@ def walk_table(prog, s):
     return bool(accepts[st])
 
 
-def observe_accept(arg, sigma, n):
+def observe_accept(arg, sigma, n, budget):
     """compile(arg) and the accepted strings over sigma of length <= n."""
     from ppci.lang.tools import regex
 
     try:
-        prog = limited(regex.compile, arg() if callable(arg) else arg)
+        prog = limited(regex.compile, arg() if callable(arg) else arg, budget=budget)
         acc = [list(s) for s in strings(sigma, n) if walk_table(prog, s)]
     except Budget:
         return {"ok": False, "exc": "Budget"}, None
@@ -226,16 +236,21 @@ def outcome_tag(out):
     return "accepted-set" if out["ok"] else "exc=" + out["exc"]
 
 
-def drain(gen, limit):
+def drain(make_gen, limit):
+    """Tokens yielded by the generator make_gen() and how it ended (under the call budget)."""
     toks, fin = [], "done"
-    try:
-        for tk in gen:
+
+    def pull():
+        for tk in make_gen():
             toks.append(tk)
             if len(toks) > limit:
-                fin = "overrun"
-                break
+                return "overrun"
+        return "done"
+
+    try:
+        fin = limited(pull)
     except Exception as e:  # noqa
-        fin = "exc:" + type(e).__name__
+        fin = "exc=" + type(e).__name__
     return toks, fin
 
 
@@ -245,9 +260,9 @@ def observe_scan(re_text, text):
     try:
         prog = limited(regex.compile, re_text)
     except Exception as e:  # noqa
-        return {"fin": "exc:compile:" + type(e).__name__, "toks": []}
-    toks, fin = drain(regex.scan(prog, text), len(text) + 1)
-    return {"fin": fin, "toks": [[ord(c) for c in tk] if isinstance(tk, str) else [-1] for tk in toks]}
+        return {"fin": "compile:exc=" + type(e).__name__, "toks": []}
+    toks, fin = drain(lambda: regex.scan(prog, text), len(text) + 1)
+    return {"fin": fin, "toks": [[ord(c) for c in tk] if isinstance(tk, str) else [0] for tk in toks]}
 
 
 def observe_lexer(rules, text):
@@ -257,14 +272,14 @@ def observe_lexer(rules, text):
         with contextlib.redirect_stdout(io.StringIO()):
             sc = limited(regex.make_scanner, dict(rules))
     except Exception as e:  # noqa
-        return {"fin": "exc:make_scanner:" + type(e).__name__, "toks": []}
-    toks, fin = drain(sc.scan(text), len(text) + 1)
+        return {"fin": "make_scanner:exc=" + type(e).__name__, "toks": []}
+    toks, fin = drain(lambda: sc.scan(text), len(text) + 1)
     enc = []
     for tk in toks:
         if isinstance(tk, tuple) and len(tk) == 2 and isinstance(tk[1], str):
             enc.append({"n": str(tk[0]), "t": [ord(c) for c in tk[1]]})
         else:
-            enc.append({"n": "?", "t": [-1]})
+            enc.append({"n": "?", "t": [0]})
     return {"fin": fin, "toks": enc}
 
 
@@ -354,7 +369,7 @@ def accept_cases(ctx):
         for t in asts(size, CORE_LEAVES):
             cases.append(("core", t, show(t), codes("ab"), n))
     seen = {c[2] for c in cases}
-    for size, count in ((6, 400), (7, 250), (8, 120)) if thorough else ((5, 160), (6, 40)):
+    for size, count in ((6, 1000), (7, 400), (8, 150)) if thorough else ((5, 400), (6, 60)):
         got = 0
         while got < count:
             t = random_ast(rng, size, CORE_LEAVES)
@@ -380,20 +395,27 @@ class Engine:
 
     def run(self, ctx):
         thorough = ctx.tier == "thorough"
-        ctx.rule("M: Regex_MC (compile worklist, table walk, scanner loop as actions; laws of Deriv/Nullable/Parse) for "
-                 "every AST of size<=%d over {a,b,.} and every string over {a,b} of length<=%d. "
-                 "E: every AST of size<=%d over {a,b,.} (+ seeded larger ones, + size<=3 over class/escape leaves, + fixed "
-                 "expressions) printed with minimal parentheses, compiled by ppci regex.compile (kind text) and built "
-                 "through the combinator API (kind ast); the set of strings of length<=n accepted by walking the returned "
-                 "transition table is compared by TLC with {s : Matches(ParseRegex(text).ast, s)}; regex.scan / "
-                 "make_scanner on texts built from accepted strings (and perturbed ones) against Tokens (longest match). "
-                 "distinct = distinct (kind, expression[, text])" % ((4, 5, 5) if thorough else (3, 4, 4)))
+        ctx.rule("M: Regex_MC (compile worklist, table walk, scanner loop as actions; laws of Deriv/Nullable/Accepts) for every "
+                 "AST of size<=%s over {a,b,.} and every string over {a,b} of length<=%s; Parse(Show(r))=r for every AST of "
+                 "size<=%d over 6 leaves (incl. escapes, a class). "
+                 "E: every AST of size<=%d over {a,b,.} (+ seeded samples up to size %d, + size<=3 over class/escape leaves, "
+                 "+ %d fixed expressions) printed with minimal parentheses, compiled by ppci regex.compile (kind text) and "
+                 "built through the combinator API (kind ast); the set of strings of length<=n accepted by walking the "
+                 "returned transition table is compared by TLC with {s : Matches(ParseRegex(text).ast, s)}; regex.scan / "
+                 "make_scanner on texts built from TLC-confirmed accepted strings (and perturbed ones) against Tokens "
+                 "(longest match). distinct = distinct (kind, expression[, text])"
+                 % (("4 (5 for length<=3)", 5, 6, 5, 8, len(FIXED)) if thorough else (4, 4, 5, 4, 6, len(FIXED))))
         ctx.assume("kind ast: the 12-line builder engines/c31.py:build maps AST nodes to ppci combinators (x+ is x + Kleene(x))")
-        ctx.assume("a compile that exceeds %d Python function calls is recorded as non-terminating (exc=Budget); "
-                   "terminating compiles of these sizes need < 40 000" % CALL_BUDGET)
+        ctx.assume("a compile that exceeds a budget of Python function calls (200 000 up to 6 AST nodes, 1 000 000 for 7, "
+                   "2 000 000 otherwise) is recorded as non-terminating (exc=Budget); terminating compiles need < 1/9 of it")
         ctx.assume("acceptance is observed by walking (transitions, accepts) from state 0; '.' is never applied to a newline")
         if ctx.only is None:
             self.model_check(ctx, thorough)
+        try:
+            import ppci.lang.tools.regex  # noqa
+        except Exception as e:  # noqa: a changed tree may not even import
+            ctx.violation("C31:import:exc=%s" % type(e).__name__, "ppci.lang.tools.regex cannot be imported: %s" % e)
+            return
         recs = self.accept_records(ctx)
         validated = self.judge(ctx, recs, "accept")
         recs2 = self.scan_records(ctx, validated)
@@ -404,11 +426,11 @@ class Engine:
         """Regex_MC exhaustively.  Per-action transition counts are read from a dot dump of the state
         graph (`-coverage` is unusable here: its cost model makes TLC spend minutes on the mutually
         recursive definitions before the first state); the dump is only made for the smaller constants."""
-        for size, ln, dump in ((2, 3, True), (4, 5, False)) if thorough else ((3, 4, True),):
+        for size, ln, psize, dump in ((2, 3, 6, True), (4, 5, 1, False), (5, 3, 1, False)) if thorough else ((2, 3, 5, True), (4, 4, 1, False)):
             extra, dot = [], os.path.join(ctx.workdir, "regex_mc.dot")
             if dump:
                 extra = ["-dump", "dot,actionlabels", dot]
-            res = ctx.tlc("Regex_MC", MC_CFG % (size, ln), label="design size<=%d len<=%d" % (size, ln),
+            res = ctx.tlc("Regex_MC", MC_CFG % (size, ln, psize), label="design size<=%d len<=%d" % (size, ln),
                           coverage=False, extra=extra)
             for e in res.errors:
                 raise core.tlcmod.MachineryError("Regex_MC: invariant fails in the specification itself: %s" % e)
@@ -427,13 +449,14 @@ class Engine:
         recs = []
         for fam, t, text, sigma, n in accept_cases(ctx):
             tag = shape(t)
-            out, _ = observe_accept(text, sigma, n)
+            budget = call_budget(nodes(t)) if fam == "core" else call_budget(8)
+            out, _ = observe_accept(text, sigma, n, budget)
             recs.append({"kind": "text", "must": True, "re": codes(text), "sigma": sigma, "n": n, "out": out,
-                         "key": "C31:text:shape=%s:%s:re=%s" % (tag, outcome_tag(out), text), "retext": text, "fam": fam})
-            if True:
-                out, _ = observe_accept(lambda t=t: build(t), sigma, n)
-                recs.append({"kind": "ast", "must": True, "ast": to_json(t), "sigma": sigma, "n": n, "out": out,
-                             "key": "C31:ast:shape=%s:%s:re=%s" % (tag, outcome_tag(out), text), "retext": text, "fam": fam})
+                         "key": "C31:text:shape=%s:%s:re=%s" % (tag, outcome_tag(out), text), "retext": text, "fam": fam,
+                         "tags": tag})
+            out, _ = observe_accept(lambda t=t: build(t), sigma, n, budget)
+            recs.append({"kind": "ast", "must": True, "ast": to_json(t), "sigma": sigma, "n": n, "out": out,
+                         "key": "C31:ast:shape=%s:%s:re=%s" % (tag, outcome_tag(out), text), "retext": text, "fam": fam})
         return recs
 
     # ---- scanning -----------------------------------------------------
@@ -474,6 +497,11 @@ class Engine:
                 lexers.append(([("T%d" % k, p["retext"]) for k, p in enumerate(pick)], "ab"))
         by_text = {r["retext"]: r for r in pool}
         for rules, sigma in lexers:
+            # shape tags of the rules (union), in the key for the same reason as for single expressions
+            tags = set()
+            for _, rt in rules:
+                tags.update(by_text[rt]["tags"].split("+") if rt in by_text else ["fixed"])
+            tag = "+".join(sorted(tags - {"plain"})) or "plain"
             words = []
             for _, rt in rules:
                 if rt in by_text:
@@ -487,7 +515,7 @@ class Engine:
                 out = observe_lexer(rules, text)
                 recs.append({"kind": "lexer", "must": True, "rules": [{"n": nm, "re": codes(rt)} for nm, rt in rules],
                              "text": codes(text), "out": out,
-                             "key": "C31:lexer:%s:rules=%s:text=%s" % (out["fin"], ",".join(rt for _, rt in rules), text)})
+                             "key": "C31:lexer:shape=%s:%s:rules=%s:text=%s" % (tag, out["fin"], ",".join(rt for _, rt in rules), text)})
         return recs
 
     # ---- TLC decides ----------------------------------------------------
@@ -512,7 +540,7 @@ class Engine:
             ctx.count(r["key"])
         for r in report[:: max(1, len(report) // 3)][:3]:
             ctx.sample({"key": r["key"], "out": str(r["out"])[:160]})
-        wire = [{k: v for k, v in r.items() if k not in ("retext", "fam")} for r in recs]
+        wire = [{k: v for k, v in r.items() if k not in ("retext", "fam", "tags")} for r in recs]
         path = ctx.trace_file(wire)
         res = ctx.tlc("Regex_Eval", EVAL_CFG, label=label, env={"TRACE_FILE": path}, continue_=True,
                       coverage=False)      # -coverage makes TLC track every recursive evaluation: out of memory
@@ -525,9 +553,10 @@ class Engine:
             if e.name == "NotVacuous":
                 raise core.tlcmod.MachineryError("C31: the specification does not define the generated case %s" % recs[idx - 1]["key"])
             bad.setdefault(idx - 1, e.name)
+        reported = {id(x) for x in report}
         for k in sorted(bad):
             r = recs[k]
-            if any(r is x for x in report):
+            if id(r) in reported:
                 ctx.violation(r["key"], self.what(r) + " [clause %s]" % bad[k],
                               {"record": wire[k], "clause": bad[k]})
         return [r for k, r in enumerate(recs) if r["kind"] == "text" and r["out"]["ok"] and k not in bad]
@@ -541,4 +570,5 @@ class Engine:
             acc = ["".join(chr(c) for c in w) for w in o["acc"]]
             return "automaton of %r [%s] accepts %s%s of the strings of length<=%d: not the expression's language" % (
                 r["retext"], r["kind"], acc[:8], "..." if len(acc) > 8 else "", r["n"])
-        return "%s: yielded %s then %s: not the longest-match tokenisation" % (r["key"], r["out"]["toks"][:6], r["out"]["fin"])
+        toks = [("".join(map(chr, tk["t"])), tk["n"]) if isinstance(tk, dict) else "".join(map(chr, tk)) for tk in r["out"]["toks"][:8]]
+        return "%s yielded %s then %s: not the longest-match tokenisation" % (r["kind"], toks, r["out"]["fin"])
